@@ -16,7 +16,13 @@ PARAMS = dict(quick_cfgs=["MC_C16_quick.cfg", "MC_C16_two.cfg"], thorough_cfgs=[
         {"ev": "lock", "w": "w1", "sl": "s1", "stage": "S1"}, {"ev": "receive", "w": "w2", "sl": "s1"},
         {"ev": "finalize", "w": "w1", "sl": "s1", "stage": "S2"}, {"ev": "post", "sl": "s1"}, {"ev": "mine", "to": "", "txs": ["s1"]},
         {"ev": "refresh", "w": "w1"}, {"ev": "restore", "w": "w3", "from": "w1"}, {"ev": "scan", "w": "w3", "start": 1, "del": False},
-        {"ev": "mine", "to": "w3", "txs": []}, {"ev": "refresh", "w": "w3"}, {"ev": "scan", "w": "w3", "start": 1, "del": False}]])
+        {"ev": "mine", "to": "w3", "txs": []}, {"ev": "refresh", "w": "w3"}, {"ev": "scan", "w": "w3", "start": 1, "del": False}],
+    # directed: a wallet that has NEVER looked at the chain (a new wallet) answers a payment that
+    # is then abandoned: the stale incoming record (made at observed height 0) is dropped by a scan asked to drop pending
+    # transactions, once and for all
+    [{"ev": "setup", "norefresh2": True}, {"ev": "init_send", "w": "w1", "sl": "s1", "amt": 1000},
+        {"ev": "receive", "w": "w2", "sl": "s1", "dest": ""}, {"ev": "scan", "w": "w2", "start": 1, "del": True},
+        {"ev": "scan", "w": "w2", "start": 1, "del": True}, {"ev": "refresh", "w": "w2"}]])
 
 
 def run(tier, replay_path, t0):
